@@ -165,6 +165,15 @@ func TestC06GlobCacheUnderEviction(t *testing.T) {
 		for i := 0; i < nhosts; i++ {
 			fmt.Fprintf(&cfg, "route add s%d *.h%d.example/ http://t%d:80/\n", i, i, i)
 		}
+		// some tables also carry host patterns that are no valid globs (they are compared literally):
+		// those, too, must not make the cache outgrow its size
+		nbad := rapid.SampledFrom([]int{0, 0, 1, 3, 6}).Draw(t, "hosts-that-are-no-valid-patterns")
+		for i := 0; i < nbad; i++ {
+			fmt.Fprintf(&cfg, "route add bad%d %s%d.example/ http://bad%d:80/\n", i, []string{"[bad", "{a,b", "x[!"}[i%3], i, i)
+		}
+		if nbad > 0 {
+			hx.Class("glob-cache-eviction:table-with-invalid-host-patterns")
+		}
 		cfg.WriteString("route add fallback / http://fallback:80/\n")
 		tbl, err := route.NewTable(bytes.NewBufferString(cfg.String()))
 		if err != nil {
